@@ -411,8 +411,8 @@ def conformance(fams, picked, workers=16):
 
 
 def run_check(prop, families, level='model_checking', technique='',
-              functions=(), assumptions=(), argv=None, quick_budget=150,
-              thorough_budget=1500, extra_evidence=None, post=None):
+              functions=(), assumptions=(), argv=None, quick_budget=420,
+              thorough_budget=2400, extra_evidence=None, post=None):
     ap = argparse.ArgumentParser()
     ap.add_argument('--tier', default=os.environ.get('VERIF_TIER', 'quick'))
     ap.add_argument('--family', default=None)
